@@ -3,9 +3,9 @@
 text format the xfemm readers accept (as FEMM 4.2 writes it)."""
 import math
 
-UNITS = ["inches", "millimeters", "centimeters", "meters", "mils", "micrometers"]
+UNITS = ["inches", "millimeters", "centimeters", "meters", "mils", "microns"]   # tokens of the file format
 # metres per unit (SI definition), used by oracles
-UNIT_M = {"inches": 0.0254, "millimeters": 1e-3, "centimeters": 1e-2, "meters": 1.0, "mils": 2.54e-5, "micrometers": 1e-6}
+UNIT_M = {"inches": 0.0254, "millimeters": 1e-3, "centimeters": 1e-2, "meters": 1.0, "mils": 2.54e-5, "microns": 1e-6}
 
 
 def g(x):
